@@ -604,20 +604,72 @@ def run(ctx):
         if n < 2:
             raise AnchorMissing("expected the attribute recognisers of Vec and HashMap (found %d)" % n)
 
+    with ctx.rule("C16.R12", "T3", "collection recognisers reset an element recogniser after every element it completed", floor=4) as r:
+        # VecRecognizer / HashMapRecognizer feed one sub-recogniser again and again; a sub-recogniser that has answered is only guaranteed to start
+        # afresh after reset() (OptionRecognizer keeps `reading_value`, struct recognisers keep their progress): on every path on which the value it
+        # produced is used and the collection goes on (answers None), the same sub-recogniser is reset first
+        n = 0
+        for b in f.all_bodies():
+            if b.meta.get("name") != "feed_event" or "::recognizer::" not in b.defpath or "::{closure" in b.defpath:
+                continue
+            def fld(c):
+                d = describe_operand(b, c.args[0]).lstrip("&")
+                return d[4:] if d.startswith("mut ") else d
+            feeds = [c for c in b.calls if c.name == "feed_event" and c.args and fld(c).startswith("self.")]
+            coll = [c for c in b.calls if c.name in ("push", "insert", "push_back", "extend") and c.args and fld(c).startswith("self.")]
+            if not feeds or not coll:
+                continue
+            ctx.saw(b)
+            nones = [i_ for i_, j_, p_, rv, line in b.assigns() if describe_rvalue(b, rv).startswith("Option::None")]
+            for k, c in enumerate(sorted(feeds, key=lambda x: x.block)):
+                FLD = fld(c)
+                resets = {x.block for x in b.calls if x.name == "reset" and x.args and fld(x) == FLD}
+                # where the produced value is read: an operand that is the Ok payload of this call's result
+                used = set()
+                for i_, j_, p_, rv, line in b.assigns():
+                    d = describe_rvalue(b, rv)
+                    if ("<Ok>.0" in d and "feed_event(%s" % FLD in d) and b.dominates(c.block, i_):
+                        used.add(i_)
+                for x in b.calls:
+                    if x is c or not b.dominates(c.block, x.block):
+                        continue
+                    if any("<Ok>.0" in describe_operand(b, a) and "feed_event(%s" % FLD in describe_operand(b, a) for a in x.args):
+                        used.add(x.block)
+                used = {u for u in used if not any(b.dominates(o, u) and o != u for o in used)}
+                if not used:
+                    continue
+                n += 1
+                bad = None
+                for u in sorted(used):
+                    for nb in nones:
+                        p1 = b.path_avoiding([u], {nb}, avoid=resets) if u != nb else [u]
+                        if p1 is not None and nb not in resets and b.path_avoiding([nb], set(b.exits()), avoid=resets) is not None:
+                            bad = (u, nb)
+                            break
+                    if bad:
+                        break
+                nm = (b.meta.get("self_adt") or "?").split("::")[-1]
+                r.check(bad is None and bool(resets), "%s/%s#%d/reset-after-each-element" % (nm, FLD.replace("self.", ""), k), c.loc(), "%s is reset on every path that keeps the value it produced and goes on" % FLD,
+                        "%s keeps the value produced by %s and goes on to the next element without %s.reset() (blocks %s): a sub-recogniser that remembers anything across events "
+                        "(Option's `reading_value`, a struct's progress) treats the next element as a continuation - `[Some(1), None]` and `{1,,3}` are rejected on every reading path" % (nm, FLD, FLD, bad))
+        if n < 4:
+            raise AnchorMissing("collection recognisers: expected at least 4 element feeds whose value is kept (Vec x2, HashMap key/value), found %d" % n)
+
     with ctx.rule("C16.R11", "T12", "struct recognisers: an event that is accepted without being handed on moves the machine (no state accepts unboundedly many empty items)", floor=4) as r:
         # The model path sees `@Tag(,)` as an attribute whose value is a record of two empty items and rejects it for a struct without header fields;
         # a recogniser that answers "more" to an Extant and stays where it is accepts any number of them: the two reading paths disagree.
         n = 0
+        STATE_PLACES = ("self.state", "(*self.state)", "self.stage", "(*self.stage)")
         for b in f.all_bodies():
-            if b.meta.get("name") != "feed_event" or "read::recognizer::" not in b.defpath or "{closure" in b.defpath or "::primitive::" in b.defpath or "::impls::" in b.defpath:
+            if b.meta.get("name") != "feed_event" or "read::recognizer::" not in b.defpath or "{closure" in b.defpath or "::primitive::" in b.defpath:
                 continue
-            sw = [si for si in b.switches_on(lambda p, si: True) if si.get("kind") == "disc" and describe_place(b, si["place"]) in ("self.state", "(*self.state)")]
+            sw = [si for si in b.switches_on(lambda p, si: True) if si.get("kind") == "disc" and describe_place(b, si["place"]) in STATE_PLACES]
             if not sw:
                 continue
             st = sw[0]
             sve = b.variant_edges(st["block"])
             tag = (b.meta.get("self_adt") or b.defpath).split("::")[-1].split("<")[0]
-            writes = {i for i, j, p_, rv, line in b.assigns() if describe_place(b, p_) in ("self.state", "(*self.state)")}
+            writes = {i for i, j, p_, rv, line in b.assigns() if describe_place(b, p_) in STATE_PLACES}
             none_rets = {i for i, j, p_, rv, line in b.assigns() if p_[0] == 0 and not p_[1] and describe_rvalue(b, rv) in ("Option::None()", "None")}
             fw_blocks = {c.block for c in b.calls if (c.name is None or c.via_name == "feed_event") and any(describe_operand(b, a) == "input" for a in c.args)}
             for isw in [si for si in b.switches_on(lambda p, si: True) if si.get("kind") == "disc" and describe_place(b, si["place"]) in ("input", "(*input)") and (si.get("adt") or "").endswith("event::ReadEvent")]:
